@@ -20,6 +20,8 @@ static long clock_start, clock_jump, clock_reads;
 static long cmp_calls, cmp_failed, hash_calls, readdir_dirs, readdir_permuted;
 static int cmp_yield = 1;
 
+long sim_cmp_calls(void) { return cmp_calls; }
+
 /* ------------------------------------------------------------------ probes */
 #define MAXPROBE 64
 static struct { char name[48]; long hits; } probes[MAXPROBE];
